@@ -129,7 +129,24 @@ func validators(t *rapid.T, label string) [][2]string {
 	return nil
 }
 
+// ExtDirectives are extension directives (RFC 9111 §5.2.3: unknown ones are ignored) whose
+// arguments are hard to tokenise - quoted commas, escaped quotes, a quoted string that ends in
+// an escaped backslash - and a list long enough to hit any cap on the number of members. None
+// of them may change how the directives after them are read.
+var ExtDirectives = []string{`ext="a\"b"`, `ext="a\",b"`, `ext="x, no-cache"`, `ext="C:\\"`, `ext="\\\\"`, `ext="\\", ext2="y"`,
+	"e1, e2=2, e3, e4=\"4\", e5, e6, e7, e8, e9, e10, e11, e12, e13, e14, e15, e16, e17, e18",
+	"e1, e1, e1, e1, e1, e1, e1, e1, e1, e1, e1, e1, e1, e1, e1, e1, e1"}
+
+// MaybeExt puts an extension directive in front of a directive list now and then.
+func MaybeExt(t *rapid.T, label string, cc []string, pct int) []string {
+	if Pct(t, label+"-ext", pct) {
+		return append([]string{Pick(t, label+"-extv", ExtDirectives...)}, cc...)
+	}
+	return cc
+}
+
 func storedDirectives(t *rapid.T, h *Hist, label string) (cc []string, life int64) {
+	defer func() { cc = MaybeExt(t, label+"-sd", cc, 7) }()
 	life = Pick(t, label+"-life", int64(0), 1, 10, 60, 3600)
 	h.Note(life)
 	if Pct(t, label+"-hasma", 90) {
@@ -169,12 +186,11 @@ func storedDirectives(t *rapid.T, h *Hist, label string) (cc []string, life int6
 
 func requestDirectives(t *rapid.T, h *Hist, label string, forceOIC bool) string {
 	var cc []string
-	if Pct(t, label+"-ext", 8) {
-		// an extension whose quoted argument contains an escaped quote and a comma
-		cc = append(cc, Pick(t, label+"-extv", `ext="a\"b"`, `ext="a\",b"`, `ext="x, no-cache"`))
-	}
+	cc = MaybeExt(t, label, cc, 10)
 	if forceOIC {
-		cc = append(cc, "only-if-cached")
+		// a directive is identified by its token (RFC 9111 §5.2); an argument it does not
+		// define does not make it another directive
+		cc = append(cc, Pick(t, label+"-oicv", "only-if-cached", "only-if-cached", "only-if-cached", "only-if-cached", "only-if-cached", "only-if-cached", "only-if-cached=1", `Only-If-Cached="1"`))
 	}
 	if Pct(t, label+"-nc", 25) {
 		cc = append(cc, "no-cache")
